@@ -35,6 +35,20 @@ def ensure_hypothesis():
     import hypothesis  # noqa: F401
 
 
+def ensure_atheris():
+    """atheris is optional (thorough-tier fuzz sub-checks): install the wheel offline into <checkout>/.deps if missing."""
+    deps = os.path.join(ROOT, ".deps")
+    if os.path.isdir(os.path.join(deps, "atheris")):
+        return True
+    r = subprocess.run(
+        [sys.executable, "-m", "pip", "install", "--no-index", "--find-links", WHEELS, "--target", deps, "atheris"],
+        check=False,
+        stdout=subprocess.DEVNULL,
+        stderr=subprocess.DEVNULL,
+    )
+    return r.returncode == 0 and os.path.isdir(os.path.join(deps, "atheris"))
+
+
 def boot():
     pkg = os.path.join(REPO, "perception_eval")
     if not os.path.isdir(os.path.join(pkg, "perception_eval")):
